@@ -606,3 +606,7 @@ func RaceBodies() map[string]func() {
 		"c08-xstar-raw":                  xstarRaw,
 	}
 }
+
+
+// StarStalled is also run under C17 with the message-ownership ledger installed.
+func StarStalled() { starStalled() }
